@@ -4,7 +4,6 @@ import (
 	"context"
 	"fmt"
 	"math/rand/v2"
-	"os"
 	"sync"
 
 	"verif/harness/lib"
@@ -121,7 +120,7 @@ func runDir1(r *lib.Run) {
 	perDir := 25
 	nDirs := (nBlobs + perDir - 1) / perDir
 
-	sem := make(chan struct{}, 6) // directories in flight
+	sem := make(chan struct{}, r.N(6, 8)) // directories in flight
 	var wg sync.WaitGroup
 	for d := 0; d < nDirs; d++ {
 		wg.Add(1)
@@ -138,13 +137,18 @@ func runDir1(r *lib.Run) {
 }
 
 func dir1Case(r *lib.Run, rng *rand.Rand, d int, n int) {
-	dir := lib.MkTemp("c20d1")
-	defer func() { _ = os.RemoveAll(dir) }()
+	dir := dirs.Get()
+	defer dirs.Put(dir)
 
 	var files []*d1File
 	want := map[string]int64{}
+	keys := map[string]bool{}
 	for i := 0; i < n; i++ {
 		f, b := genD1File(rng, fmt.Sprintf("d1-%d-%d-s%d", d, i, r.Seed))
+		for keys[f.kind+"/"+f.hash] { // one file per key (tiny blobs have few possible values)
+			f, b = genD1File(rng, fmt.Sprintf("d1-%d-%d-s%d", d, i, r.Seed))
+		}
+		keys[f.kind+"/"+f.hash] = true
 		if err := writeFile(dir, f.rel, b); err != nil {
 			r.Inconclusive("dir1: cannot write scratch file: " + err.Error())
 			return
@@ -189,7 +193,11 @@ func dir1Open(r *lib.Run, rng *rand.Rand, dir string, d int, c cfg, phase string
 	if len(files) > 0 {
 		sect = files[0].section()
 	}
-	srv, err := lib.StartServer(lib.ServerOpts{Dir: dir, MaxSize: bigCache, Storage: c.storage, ZstdImpl: c.impl, RawHTTP: true, KeepDir: true})
+	srv, err, timedOut := startBounded(lib.ServerOpts{Dir: dir, MaxSize: bigCache, Storage: c.storage, ZstdImpl: c.impl, RawHTTP: true, KeepDir: true})
+	if timedOut {
+		r.Inconclusive(fmt.Sprintf("%s: opening directory %d under %s did not finish within %s", sect, d, c, openMax))
+		return false
+	}
 	r.Eval()
 	if err != nil {
 		r.Violation("C20:"+sect+":"+phase+":directory-rejected", "a cache directory laid out in the published v2 format could not be opened: "+short(err.Error()),
@@ -312,9 +320,9 @@ func dir1Reads(r *lib.Run, rng *rand.Rand, srv *lib.Server, c cfg, phase string,
 		return
 	}
 
-	maxOffsets := 14
+	maxOffsets := 11
 	if phase == "restart" {
-		maxOffsets = 5
+		maxOffsets = 4
 	}
 	offs := offsetsFor(rng, len(f.data), f.chunk, maxOffsets)
 	// Offsets repeated through the servers. A handler panic in the
@@ -370,7 +378,7 @@ func dir1Reads(r *lib.Run, rng *rand.Rand, srv *lib.Server, c cfg, phase string,
 			continue
 		}
 		ex := map[string]any{"offset": off}
-		b, err := srv.BSRead(ctx, lib.ResBlobs(f.hash, n), off, 0)
+		b, err := bsRead(ctx, srv, lib.ResBlobs(f.hash, n), off, 0, len(f.data))
 		o := readOut{data: b, size: n, found: true}
 		if err != nil {
 			o.err = err.Error()
@@ -382,7 +390,7 @@ func dir1Reads(r *lib.Run, rng *rand.Rand, srv *lib.Server, c cfg, phase string,
 		judge(path, o, f.data[off:], ex)
 
 		if i < 3 {
-			zb, err := srv.BSRead(ctx, lib.ResZstd(f.hash, n), off, 0)
+			zb, err := bsRead(ctx, srv, lib.ResZstd(f.hash, n), off, 0, len(f.data))
 			o := readOut{size: n, found: true}
 			if err != nil {
 				o.err = err.Error()
@@ -403,7 +411,7 @@ func dir1Reads(r *lib.Run, rng *rand.Rand, srv *lib.Server, c cfg, phase string,
 		off := srvOffs[rng.IntN(len(srvOffs))]
 		lim := n - off
 		if !panicked[off] {
-			b, err := srv.BSRead(ctx, lib.ResBlobs(f.hash, n), off, lim)
+			b, err := bsRead(ctx, srv, lib.ResBlobs(f.hash, n), off, lim, len(f.data))
 			if err == nil {
 				judge("bs-read-limit", readOut{data: b, size: n, found: true}, f.data[off:], map[string]any{"offset": off, "limit": lim})
 			} else {
